@@ -14,6 +14,7 @@ static const char *ecls_name[NECLS] = {"0", "+1", "-1", "+2", "-2", "q-1", "q", 
 struct PowStats {
 	long long judged[NPOWFN] = {0}, noncoprime[NPOWFN] = {0}, beyond[NPOWFN] = {0}, evenmod[NPOWFN] = {0}, refused_ok[NPOWFN] = {0};
 	long long beyond_agree[NPOWFN] = {0}, noncoprime_threw[NPOWFN] = {0}, noncoprime_agree[NPOWFN] = {0}, noncoprime_differ[NPOWFN] = {0};
+	long long alias_judged[NPOWFN] = {0}, alias_exp_ok[NPOWFN] = {0}, alias_exp_bad[NPOWFN] = {0}, alias_base_ok[NPOWFN] = {0}, alias_base_bad[NPOWFN] = {0};
 	long long cls[NECLS] = {0}, negexp_judged = 0, skipped_sigfpe = 0, wrongbase_refused = 0, zero_mod_refused = 0, calc_chain_max = 0;
 	void flush() {
 		for (int f = 0; f < NPOWFN; f++) {
@@ -22,6 +23,9 @@ struct PowStats {
 			count(n + ".notjudged_beyond_precomputed_table", beyond[f]); count(n + ".notjudged_even_modulus", evenmod[f]);
 			count(n + ".documented_refusal_observed", refused_ok[f]);
 			count(n + ".beyond_table_result_equals_powm", beyond_agree[f]);
+			count(n + ".judged_result_aliases_exponent", alias_judged[f]);
+			count(n + ".notjudged_result_aliases_exponent_ok", alias_exp_ok[f]); count(n + ".notjudged_result_aliases_exponent_differs", alias_exp_bad[f]);
+			count(n + ".notjudged_result_aliases_base_ok", alias_base_ok[f]); count(n + ".notjudged_result_aliases_base_differs", alias_base_bad[f]);
 			count(n + ".noncoprime_threw", noncoprime_threw[f]); count(n + ".noncoprime_equals_powm", noncoprime_agree[f]); count(n + ".noncoprime_differs", noncoprime_differ[f]);
 		}
 		for (int c = 0; c < NECLS; c++) count(std::string("pw.expclass.") + ecls_name[c], cls[c]);
@@ -34,7 +38,7 @@ extern PowStats PS;
 struct PowCtx {
 	mpz_t *table = nullptr; size_t t_pre = 0;       // table + number of precomputed entries
 	Rng *recr = nullptr; uint64_t rec_den = 32;      // record sampling
-	CaseStat *cs = nullptr; long calc_idx = 0;
+	CaseStat *cs = nullptr; long calc_idx = 0; unsigned long alias_ctr = 0, alias_every = 1;
 };
 
 // one evaluation.  For CALC the caller has done tmcg_mpz_spowm_init(e, m).
@@ -79,6 +83,36 @@ static void pow_eval(PowCtx &C, int fn, mpz_srcptr b, mpz_srcptr e, mpz_srcptr m
 		if (!coprime) { PS.noncoprime[fn]++; if (x != X_NONE) PS.noncoprime_threw[fn]++; else if (have_ref && !mpz_cmp(out, ref)) PS.noncoprime_agree[fn]++; else PS.noncoprime_differ[fn]++; }
 		else if (!odd) PS.evenmod[fn]++;
 		else { PS.beyond[fn]++; if (x == X_NONE && have_ref && !mpz_cmp(out, ref)) PS.beyond_agree[fn]++; }
+	}
+	// argument aliasing.  The library's own callers pass one variable as result *and* exponent to the table
+	// functions (26 call sites of tmcg_mpz_fpowm, 2 of tmcg_mpz_fspowm): judged.  Other shapes have no caller
+	// and the header is silent about them: recorded only.
+	if (judged && x == X_NONE && !mpz_cmp(out, ref) && fn != FPOWM_UI && (C.alias_ctr++ % C.alias_every) == 0) {
+		if (fn != CALC) {
+			Z t; mpz_set(t, e); std::string w2;
+			Exc xa = guard([&] {
+				switch (fn) {
+				case SPOWM: tmcg_mpz_spowm(t, b, t, m); break; case BASEBLIND: tmcg_mpz_spowm_baseblind(t, b, t, m); break;
+				case FPOWM: tmcg_mpz_fpowm(C.table, t, b, t, m); break; case FSPOWM: tmcg_mpz_fspowm(C.table, t, b, t, m); break;
+				}
+			}, &w2);
+			bool okA = xa == X_NONE && !mpz_cmp(t, ref);
+			if (table) {
+				PS.alias_judged[fn]++; if (C.cs) { C.cs->evals++; }
+				if (!okA) { J w = wit(); if (xa == X_NONE) w.kz("got_with_result_aliasing_exponent", t); else w.kv("threw_with_alias", std::string(exc_name(xa)) + ": " + w2); viol(kbase + "wrong-result-when-result-aliases-exponent", "f(x, g, x, p) differs from f(r, g, x, p)", w); }
+				if (C.recr && (C.recr->next() % C.rec_den) == 0) { J r; r.kv("k", "pw").kv("f", pow_name[fn]).kz("b", b).kz("e", e).kz("m", m).kv("tb", (long long)C.t_pre).kv("alias", "result=exponent"); if (xa == X_NONE) r.kz("o", t); else r.kv("x", exc_name(xa)); record(r.str()); }
+			} else { if (okA) PS.alias_exp_ok[fn]++; else PS.alias_exp_bad[fn]++; }
+		}
+		{
+			Z t; mpz_set(t, b);
+			Exc xa = guard([&] {
+				switch (fn) {
+				case SPOWM: tmcg_mpz_spowm(t, t, e, m); break; case BASEBLIND: tmcg_mpz_spowm_baseblind(t, t, e, m); break; case CALC: break;
+				case FPOWM: tmcg_mpz_fpowm(C.table, t, t, e, m); break; case FSPOWM: tmcg_mpz_fspowm(C.table, t, t, e, m); break;
+				}
+			});
+			if (fn != CALC) { if (xa == X_NONE && !mpz_cmp(t, ref)) PS.alias_base_ok[fn]++; else PS.alias_base_bad[fn]++; }
+		}
 	}
 	if (C.recr && (C.recr->next() % C.rec_den) == 0) {
 		J r; r.kv("k", "pw").kv("f", pow_name[fn]).kz("b", b).kz("e", e).kz("m", m).kv("tb", (long long)(table ? C.t_pre : 0));
@@ -163,7 +197,7 @@ static void run_pow_small(long &k) {
 		J d; d.kv("fam", "pow-small").kv("m", (long long)mu);
 		if (!case_begin(kk, d.str())) continue;
 		Rng r = case_rng(kk, 1), lib = case_rng(kk, 2), rr = case_rng(kk, 3); tl_rng = &lib;
-		CaseStat cs; PowCtx C; Table T; C.table = T.t; C.recr = &rr; C.rec_den = 32 * opt.recmul * (ctx.quick() ? 1 : 12); C.cs = &cs;
+		CaseStat cs; PowCtx C; Table T; C.table = T.t; C.recr = &rr; C.rec_den = 32 * opt.recmul * (ctx.quick() ? 1 : 12); C.cs = &cs; C.alias_every = 3;
 		Z m(mu), q, b; ul phi = 0; for (ul i = 1; i < mu; i++) if (gcd_ul(i, mu) == 1) phi++;
 		mpz_set_ui(q, phi);
 		size_t t = 12; C.t_pre = t;
